@@ -4,6 +4,7 @@ import (
 	"fmt"
 	"go/token"
 	"go/types"
+	"os"
 	"sort"
 	"strings"
 
@@ -241,7 +242,7 @@ func pathSearch(start *ssa.BasicBlock, idx int, q PathQuery) *Exit {
 				cond, condPol = normBool(iff.Cond, true)
 				decided, val := false, false
 				if it.pred != nil {
-					if v, ok := DecideOnEntry(it.b, it.pred); ok {
+					if v, ok := decideOnEntry(it.b, it.pred, it.known); ok {
 						decided, val = true, v
 					}
 				}
@@ -372,6 +373,12 @@ func threadable(b *ssa.BasicBlock) bool {
 // the condition only depends on phis of b whose input from pred is a constant or a value known to be
 // non-nil (jump threading: a helper's `return err` followed by the caller's `if err != nil`).
 func DecideOnEntry(b, pred *ssa.BasicBlock) (bool, bool) {
+	return decideOnEntry(b, pred, nil)
+}
+
+// decideOnEntry is DecideOnEntry with the conditions decided earlier on the path: the input from pred may
+// also be a value whose nil test was branched on before (`if err == nil { err = f() }; if err != nil`).
+func decideOnEntry(b, pred *ssa.BasicBlock, known map[ssa.Value]bool) (bool, bool) {
 	if len(b.Instrs) == 0 {
 		return false, false
 	}
@@ -399,6 +406,12 @@ func DecideOnEntry(b, pred *ssa.BasicBlock) (bool, bool) {
 	if v, isPhi := in(c); isPhi {
 		if k, ok := boolConst(v); ok {
 			return k == pol, true
+		}
+		if known != nil {
+			// the input over this edge is itself a condition decided earlier on the path
+			if val, ok := evalUnder(v, known, 0); ok {
+				return val == pol, true
+			}
 		}
 		return false, false
 	}
@@ -428,7 +441,19 @@ func DecideOnEntry(b, pred *ssa.BasicBlock) (bool, bool) {
 	case NonNil(other):
 		isNil = false
 	default:
-		return false, false
+		found := false
+		for kc, v := range known {
+			cmp, ok := CanonCmp(kc, v)
+			if !ok || (cmp.Op != token.EQL && cmp.Op != token.NEQ) {
+				continue
+			}
+			if (cmp.X == other && IsNilConst(cmp.Y)) || (cmp.Y == other && IsNilConst(cmp.X)) {
+				found, isNil = true, cmp.Op == token.EQL
+			}
+		}
+		if !found {
+			return false, false
+		}
 	}
 	res := isNil == (bo.Op == token.EQL)
 	return res == pol, true
@@ -478,6 +503,15 @@ func Reaches(a, b ssa.Instruction) bool {
 	// search uses, from recursing)
 	e := pathSearchInsensitive(a.Block(), InstrIndex(a)+1, PathQuery{Target: func(in ssa.Instruction) bool { return in == b }})
 	return e != nil
+}
+
+// MayReach is Reaches with memory of the branches taken (paths that a flag or a helper's result rules out
+// do not count).
+func MayReach(a, b ssa.Instruction) bool {
+	if a.Parent() != b.Parent() {
+		return false
+	}
+	return PathFrom(a, PathQuery{Target: func(in ssa.Instruction) bool { return in == b }}) != nil
 }
 
 // Cmp is a canonical comparison: X Op Y where Op ∈ {<,<=,>,>=,==,!=}.
@@ -551,6 +585,12 @@ func CanonCmp(cond ssa.Value, pol bool) (Cmp, bool) {
 					r.Op = negate(r.Op)
 				}
 				return r, true
+			}
+		}
+		// a constant on the left ('0' <= id) goes to the right
+		if _, xc := x.(*ssa.Const); xc {
+			if _, yc := y.(*ssa.Const); !yc {
+				x, y, op = y, x, swap(op)
 			}
 		}
 		r := Cmp{op, x, y, false}
@@ -823,6 +863,12 @@ func boolConst(v ssa.Value) (val, ok bool) {
 	return k.Value.ExactString() == "true", true
 }
 
+// NormBool is normBool for rule code.
+func NormBool(cond ssa.Value, pol bool) (ssa.Value, bool) { return normBool(cond, pol) }
+
+// BoolConst is boolConst for rule code.
+func BoolConst(v ssa.Value) (val, ok bool) { return boolConst(v) }
+
 // normBool strips the wrappers go/ssa puts around conditions that were evaluated as values:
 // !x, true == x, x == true, x != false ... (tagless switch cases are lowered to `true == cond`).
 func normBool(cond ssa.Value, pol bool) (ssa.Value, bool) {
@@ -865,6 +911,9 @@ func expandFacts(in []Fact, depth int) []Fact {
 	for _, f := range in {
 		c, pol := normBool(f.Cond, f.Pol)
 		out = append(out, Fact{c, pol, f.If})
+		if depth <= 4 {
+			out = append(out, nilPhiFacts(c, pol, depth)...)
+		}
 		ph, ok := c.(*ssa.Phi)
 		if !ok || depth > 4 {
 			continue
@@ -908,6 +957,69 @@ func expandFacts(in []Fact, depth int) []Fact {
 	return out
 }
 
+// chaseLoad is chase that also forwards a load of a local with several stores (a named result, a variable
+// assigned by an expanded helper) to the store that reaches it on every path.
+func chaseLoad(v ssa.Value) ssa.Value {
+	for n := 0; n < 4; n++ {
+		v = chase(v)
+		u, ok := v.(*ssa.UnOp)
+		if !ok || u.Op != token.MUL {
+			return v
+		}
+		a, ok := u.X.(*ssa.Alloc)
+		if !ok {
+			return v
+		}
+		w := ReachingStore(u, a)
+		if w == nil {
+			return v
+		}
+		v = w
+	}
+	return v
+}
+
+// nilPhiFacts: the fact is a nil test of a phi (the error an expanded helper returned). If only one
+// input of the phi can have the known nil-ness, control came over that edge and the branch conditions of
+// that edge hold (the success return of the helper: everything it checked before).
+func nilPhiFacts(c ssa.Value, pol bool, depth int) []Fact {
+	cmp, ok := CanonCmp(c, pol)
+	if !ok || (cmp.Op != token.EQL && cmp.Op != token.NEQ) {
+		return nil
+	}
+	var q ssa.Value
+	switch {
+	case IsNilConst(cmp.Y):
+		q = cmp.X
+	case IsNilConst(cmp.X):
+		q = cmp.Y
+	default:
+		return nil
+	}
+	ph, ok := chaseLoad(q).(*ssa.Phi)
+	if os.Getenv("VERIF_DEBUG_FACTS") != "" {
+		fmt.Fprintf(os.Stderr, "nilPhiFacts %s in %s: q=%s chase=%s (%T)\n", c, q.Parent(), q, chaseLoad(q), chaseLoad(q))
+	}
+	if !ok {
+		return nil
+	}
+	feasible, n := -1, 0
+	for i, e := range ph.Edges {
+		if cmp.Op == token.EQL && NonNil(e) {
+			continue
+		}
+		if cmp.Op == token.NEQ && IsNilConst(e) {
+			continue
+		}
+		feasible = i
+		n++
+	}
+	if n != 1 {
+		return nil
+	}
+	return expandFacts(edgeFacts(ph.Block().Preds[feasible], ph.Block()), depth+1)
+}
+
 // FeasibleEdges returns the indices of the inputs of phi that are consistent with facts: an input
 // edge is ruled out when a sibling phi of the same block, known (by a fact) to be nil / not nil,
 // would receive a non-nil / nil value over that edge. This is how the values a helper returned
@@ -931,11 +1043,17 @@ func FeasibleEdges(ph *ssa.Phi, facts []Fact) []int {
 			default:
 				continue
 			}
-			sib, isPhi := chase(q).(*ssa.Phi)
+			sib, isPhi := chaseLoad(q).(*ssa.Phi)
+			if os.Getenv("VERIF_DEBUG_FACTS") != "" {
+				fmt.Fprintf(os.Stderr, "FE %s: fact %s pol %v: q=%s chase=%s isPhi=%v\n", ph.Name(), f.Cond, f.Pol, q, chaseLoad(q), isPhi)
+			}
 			if !isPhi || sib.Block() != ph.Block() || i >= len(sib.Edges) {
 				continue
 			}
 			in := sib.Edges[i]
+			if os.Getenv("VERIF_DEBUG_FACTS") != "" {
+				fmt.Fprintf(os.Stderr, "FE2 %s edge %d: in=%s (%T) op=%s nonnil=%v sameblock=%v\n", ph.Name(), i, in, in, cmp.Op, NonNil(in), sib.Block() == ph.Block())
+			}
 			if cmp.Op == token.EQL && NonNil(in) {
 				ok = false
 			}
@@ -960,6 +1078,9 @@ func RootAt(v ssa.Value, at *ssa.BasicBlock) ssa.Value {
 			return v
 		}
 		idx := FeasibleEdges(ph, FactsAt(at))
+		if os.Getenv("VERIF_DEBUG_FACTS") != "" {
+			fmt.Fprintf(os.Stderr, "RootAt %s %s at %d: feasible %v of %d; facts %d\n", ph.Name(), ph.Comment, at.Index, idx, len(ph.Edges), len(FactsAt(at)))
+		}
 		if len(idx) != 1 {
 			return v
 		}
